@@ -327,10 +327,10 @@ def fallthrough_keep_ok(ctx, f, lp, e, res, g) -> bool:
     return True
 
 
-@rule("C02.R2", ["C02", "C06", "C07", "C01"], min_instances=4, design="3.2")
+@rule("C02.R2", ["C02", "C06", "C07", "C01", "C04"], min_instances=4, design="3.2")
 def remove_row_conservation(ctx):
     """Each path through a rewrite-loop iteration of _remove_helper keeps or drops the row exactly once."""
-    yield from _conservation(ctx, "TinyFlux._remove_helper", "C02.R2", ["C02"], {"KEEP", "DROP"})
+    yield from _conservation(ctx, "TinyFlux._remove_helper", "C02.R2", ["C02", "C04"], {"KEEP", "DROP"})
     yield from _remove_counters(ctx)
 
 
@@ -531,7 +531,17 @@ def remove_commit_protocol(ctx):
     for r in resets:
         cl = guard_clauses(guards(r), subst)
         lits = [next(iter(c)) for c in cl if len(c) == 1]
-        all_matched = any(a.startswith("eq(") and "len(" in a and "_items" in a and "self._index" in a and p_
+        def _from_index(atom: str) -> bool:
+            if "_items" in atom or ".items" in atom:
+                return True
+            import re as _re
+            for nm_ in _re.findall(r"len\((\w+)\)", atom):
+                vals_ = assignments_to(f, nm_)
+                if vals_ and all(("_items" in norm(v_) or ".items" in norm(v_) or "search(" in norm(v_)
+                                  or const_value(v_) is None) for v_ in vals_):
+                    return True
+            return False
+        all_matched = any(a.startswith("eq(") and "len(" in a and "self._index" in a and p_ and _from_index(a)
                           for a, p_ in lits)
         none_kept = any(a.startswith("truthy(") and not p_ and "keep" in a for a, p_ in lits) or \
             any(not p_ and a.startswith("truthy(") for a, p_ in lits if a not in
